@@ -68,6 +68,11 @@ M = [
     ("result-and-do-on-err", "C15", P, "    fn and_do(mut self, action: impl FnOnce(&mut T)) -> Result<T, E> {\n        if let Ok(value) = &mut self {\n            action(value);\n        }\n        self", "    fn and_do(mut self, action: impl FnOnce(&mut T)) -> Result<T, E> {\n        if let Ok(value) = &mut self {\n            action(value);\n            action_done();\n        }\n        self"),
     ("fixed-reads-whole-pattern", "C16", T, "    for (i, &byte) in fixed.iter().enumerate() {\n        if input.request_byte_at_offset(offset + i) != Some(byte) {\n            return offset;\n        }\n    }\n    offset + fixed.len()", "    let mut ok = true;\n    for (i, &byte) in fixed.iter().enumerate() {\n        if input.request_byte_at_offset(offset + i) != Some(byte) {\n            ok = false;\n        }\n    }\n    if ok {\n        offset + fixed.len()\n    } else {\n        offset\n    }"),
     ("newline-lone-cr", "C16", T, "        Some(b'\\r') if matches!(input.request_byte_at_offset(offset + 1), Some(b'\\n')) => {\n            offset + 2\n        }", "        Some(b'\\r') if matches!(input.request_byte_at_offset(offset + 1), Some(b'\\n') | None) => {\n            offset + 2\n        }"),
+    ("aag-skip-latches-consumes-one", "C03,C06", AA, "        while self.latches_left != 0 {\n            self.next_latch()?;\n        }\n\n        Ok(ParseOutputs {", "        if self.latches_left != 0 {\n            self.next_latch()?;\n        }\n\n        Ok(ParseOutputs {"),
+    ("aig-skip-outputs-consumes-one", "C03,C06", AB, "        while self.outputs_left != 0 {\n            self.next_output()?;\n        }\n", "        if self.outputs_left != 0 {\n            self.next_output()?;\n        }\n"),
+    ("from-ordered-latch-base", "C03", AG, "        let first_latch = 1 + ordered.input_count;", "        let first_latch = ordered.input_count;"),
+    ("litmap-contains-key-polarity", "C12", AG, "        self.map.contains_key(&L::from_code(lit.code() & !1))", "        self.map.contains_key(&lit)"),
+    ("advance-unchecked-keeps-valid-len", "C02", R, "        debug_assert!(self.valid_len >= n);\n        self.valid_len -= n;\n        self.pos_in_buf += n;", "        debug_assert!(self.valid_len >= n);\n        self.pos_in_buf += n;"),
     ("next-newline-peeks-past", "C16,C09", T, "    offset + input.request_byte_at_offset(offset).is_some() as usize", "    let r = offset + input.request_byte_at_offset(offset).is_some() as usize;\n    let _ = input.request_byte_at_offset(r);\n    r"),
 ]
 
